@@ -77,7 +77,7 @@ var properties = map[string]propSpec{
 	},
 	"C15": {
 		Level: "model_checking", Technique: techSX + "; differential against a hand-written ordered-choice recogniser/AST builder executed on the same symbolic bytes",
-		Bounds:  [2]string{"every byte string of length <= 3; 110 corpus strings (accepting and rejecting, every language-boundary fact of DESIGN.md Appendix B) concretely; for a seed-selected tenth of the corpus every position with one byte replaced by / one byte inserted as an unconstrained byte; token templates with symbolic token contents", "every byte string of length <= 4; windows over the whole corpus"},
+		Bounds:  [2]string{"every byte string of length <= 3; 110 corpus strings (accepting and rejecting, every language-boundary fact of DESIGN.md Appendix B) concretely; for a seed-selected sixteenth of the corpus every position with one byte replaced by / one byte inserted as an unconstrained byte; token templates with symbolic token contents", "every byte string of length <= 4; windows over the whole corpus"},
 		Outside: "inputs longer than the symbolic bound that differ from every corpus string/template in more than the symbolic positions",
 		StepBudget: 600_000_000,
 	},
